@@ -23,6 +23,7 @@ import (
 	"time"
 
 	sio "github.com/karagenc/socket.io-go"
+	"github.com/karagenc/socket.io-go/adapter"
 	eio "github.com/karagenc/socket.io-go/engine.io"
 
 	"verif/harness/proxy"
@@ -192,7 +193,17 @@ func newWorldG(chains map[string][]verdict, cfg *sio.ServerConfig, gated bool, g
 				}
 				return nil
 			})
-			n.OnConnection(func(s sio.ServerSocket) { vtrace.Emit("h.connection", "sid", string(s.ID()), "nsp", name) })
+			n.OnConnection(func(s sio.ServerSocket) {
+				vtrace.Emit("h.connection", "sid", string(s.ID()), "nsp", name)
+				// room traffic before the end: "/" keeps one room and its own, the others leave every room they
+				// were in - their own included - so that the end finds a socket without any membership
+				s.Join("lx", "ly")
+				s.Leave("ly")
+				if name != "/" {
+					s.Leave("lx")
+					s.Leave(sio.Room(s.ID()))
+				}
+			})
 		}
 	})
 	if err != nil {
@@ -240,6 +251,15 @@ func (w *world) nsockets() (nsp, ad int) {
 	return
 }
 
+// adapterIndex: entries of the adapters' two indexes (room -> sockets, socket -> rooms), keys and memberships
+func (w *world) adapterIndex() (n int) {
+	for _, name := range []string{"/", "/a", "/ab", "/a/b", "/custom"} {
+		r, s, m := adapter.VerifResidue(w.srv.IO.Of(name).Adapter())
+		n += r + s + m
+	}
+	return
+}
+
 type env struct {
 	res  *vres.Result
 	w    *vtrace.Writer
@@ -282,7 +302,7 @@ func (e *env) quiesce(w *world, allclosed bool, eioSid string) {
 			}
 		}
 	}
-	vtrace.Emit("quiesce", "allclosed", allclosed, "nspSockets", nsp, "adapterSockets", ad, "eioKnown", known, "lateEvents", atomic.LoadInt64(&w.late))
+	vtrace.Emit("quiesce", "allclosed", allclosed, "nspSockets", nsp, "adapterSockets", ad, "adapterIndex", w.adapterIndex(), "eioKnown", known, "lateEvents", atomic.LoadInt64(&w.late))
 }
 
 var accept1 = map[string][]verdict{"/": {}, "/a": {}}
